@@ -77,9 +77,11 @@ def conservesB (n : Nat) (layers : List (List Obs)) : Bool :=
   let labs := (layers.flatMap id).filter (fun x => !x.stub)
   labs.length == n && (List.range n).all (fun i => (labs.filter (fun x => x.owner == i)).length == 1)
 
-/-- no empty layer, every item reports the layer it is in -/
+/-- occupied layers are contiguous from the axis outward (the `simple` algorithm may leave empty layers at
+the far end when there are fewer labels than estimated layers), every item reports the layer it is in -/
 def contiguousB (layers : List (List Obs)) : Bool :=
-  layers.zipIdx.all (fun p => !p.1.isEmpty && p.1.all (fun x => x.layerIndex == p.2))
+  (layers.dropWhile (fun l => !l.isEmpty)).all (fun l => l.isEmpty) &&
+  layers.zipIdx.all (fun p => p.1.all (fun x => x.layerIndex == p.2))
 
 /-- the layer holding label `i` -/
 def layerOf (layers : List (List Obs)) (i : Nat) : Option Nat :=
